@@ -105,12 +105,15 @@ def run(ctx, R, tier):
             R.add("C11-R3", o.key.split("|", 1)[1], o.desc, o.ok, o.loc, o.detail)
 
     # ---------------------------------------------------------------- R4
-    wb = [st for st, t, k in stores_in(hr.node) if k == "assign" and unparse(t) == "wasBatched" and isinstance(st.value, ast.Constant) and st.value.value is True]
+    batch_true_nodes = lambda st: all(cfg.guarded(n, lambda e: edge_has_fact(e, batch_true)) for n in cfg.nodes_for(st))
+    wb = [st for st, t, k in stores_in(hr.node) if k == "assign" and isinstance(t, ast.Name) and isinstance(st.value, ast.Constant) and st.value.value is True
+          and batch_true_nodes(st)]
+    wbvar = wb[0].targets[0].id if wb else None
     ok = len(wb) == 1 and all(cfg.guarded(n, lambda e: edge_has_fact(e, batch_true)) for n in cfg.nodes_for(wb[0]))
     fl = [st for st, t, k in stores_in(hr.node) if k == "aug" and isinstance(st.op, ast.BitOr) and ctx.resolves_to_object(st.value, hr, "Pyro5.protocol.FLAGS_BATCH")]
 
     def was_batched(atom, pol):
-        return pol is True and isinstance(atom, ast.Name) and atom.id == "wasBatched"
+        return pol is True and isinstance(atom, ast.Name) and atom.id == wbvar
     ok = ok and len(fl) == 1 and all(cfg.guarded(n, lambda e: edge_has_fact(e, was_batched)) for n in cfg.nodes_for(fl[0]))
     R.check(ok, "C11-R4", "server|reply-flag", "a batched request is answered with FLAGS_BATCH", hr.loc(), "the reply of a batch is not marked with FLAGS_BATCH (or a normal reply is)")
     ib = ctx.fn("Pyro5.client.Proxy._pyroInvokeBatch")
